@@ -640,3 +640,112 @@ mod tests {
         assert!(outcome3.is_ok(), "expected Ok, but got {outcome3:?}");
     }
 }
+
+/// Verification hooks for the mapped-address tables as the socket uses them (C18): the three
+/// typed [`AddrMap`]s of [`MappedAddrs`] and the real [`to_transport_addr`] translation.
+#[cfg(iroh_verif)]
+pub mod verif_hooks_addr {
+    use std::{collections::HashMap, net::SocketAddr, sync::Mutex};
+
+    use iroh_base::{CustomAddr, EndpointId, RelayUrl, SecretKey};
+
+    use super::{MappedAddrs, to_transport_addr};
+    use crate::socket::{mapped_addrs::MappedAddr, transports};
+
+    /// Which table.
+    #[derive(Debug, Clone, Copy, PartialEq, Eq, Hash)]
+    pub enum Table {
+        /// `endpoint_addrs`
+        Endpoint,
+        /// `relay_addrs`
+        Relay,
+        /// `custom_addrs`
+        Custom,
+    }
+
+    /// The socket's [`MappedAddrs`] with integer-indexed keys (injective encodings of the
+    /// real key types).
+    #[derive(Debug, Default)]
+    pub struct TypedMaps {
+        maps: MappedAddrs,
+        relay_keys: Mutex<HashMap<(RelayUrl, EndpointId), u64>>,
+        custom_keys: Mutex<HashMap<CustomAddr, u64>>,
+    }
+
+    fn endpoint_id(n: u64) -> EndpointId {
+        let mut b = [0u8; 32];
+        b[0] = 0x5e;
+        b[1..9].copy_from_slice(&n.to_le_bytes());
+        SecretKey::from_bytes(&b).public()
+    }
+
+    fn relay_key(key: u64) -> (RelayUrl, EndpointId) {
+        let url: RelayUrl = format!("https://r{}.verif.test/", key % 3)
+            .parse()
+            .expect("relay url");
+        (url, endpoint_id(key / 3))
+    }
+
+    fn custom_key(key: u64) -> CustomAddr {
+        CustomAddr::from_parts(key % 5, &key.to_be_bytes()[..(1 + key as usize % 8)])
+    }
+
+    impl TypedMaps {
+        /// `AddrMap::get` on the given table for the key with index `key`.
+        pub fn get(&self, table: Table, key: u64) -> SocketAddr {
+            match table {
+                Table::Endpoint => self
+                    .maps
+                    .endpoint_addrs
+                    .get(&endpoint_id(key))
+                    .private_socket_addr(),
+                Table::Relay => {
+                    let k = relay_key(key);
+                    self.relay_keys
+                        .lock()
+                        .expect("poisoned")
+                        .insert(k.clone(), key);
+                    self.maps.relay_addrs.get(&k).private_socket_addr()
+                }
+                Table::Custom => {
+                    let k = custom_key(key);
+                    self.custom_keys
+                        .lock()
+                        .expect("poisoned")
+                        .insert(k.clone(), key);
+                    self.maps.custom_addrs.get(&k).private_socket_addr()
+                }
+            }
+        }
+
+        /// The real [`to_transport_addr`] on these tables; the result is rendered as
+        /// `ip`, `relay:<key index>`, `custom:<key index>`, `relay:?`/`custom:?` (a key the
+        /// harness never registered) or `none`.
+        pub fn to_transport(&self, addr: SocketAddr) -> String {
+            match to_transport_addr(addr, &self.maps.relay_addrs, &self.maps.custom_addrs) {
+                None => "none".to_string(),
+                Some(transports::Addr::Ip(a)) => {
+                    // `Addr::from(SocketAddr)` stores IP addresses in canonical form
+                    // (IPv4-mapped IPv6 becomes IPv4); that is the same address.
+                    if a == SocketAddr::new(addr.ip().to_canonical(), addr.port()) {
+                        "ip".to_string()
+                    } else {
+                        format!("ip-changed:{a}")
+                    }
+                }
+                Some(transports::Addr::Relay(url, id)) => {
+                    match self.relay_keys.lock().expect("poisoned").get(&(url, id)) {
+                        Some(k) => format!("relay:{k}"),
+                        None => "relay:?".to_string(),
+                    }
+                }
+                Some(transports::Addr::Custom(c)) => {
+                    match self.custom_keys.lock().expect("poisoned").get(&c) {
+                        Some(k) => format!("custom:{k}"),
+                        None => "custom:?".to_string(),
+                    }
+                }
+            }
+        }
+    }
+}
